@@ -1,0 +1,74 @@
+//go:build verif
+
+// Contracts for package vmm, read as text by /verif/engine (govc). This file
+// contains no code: with the verif tag on it compiles to an empty package
+// member, with the tag off it is not compiled at all.
+
+package vmm
+
+//@ mode bv
+
+// ---- ghost call log of the page-mapping primitive (C07) ------------------------
+//@ ghost mapCalls uintptr
+//@ ghost mapLogPage map[uintptr]mm.Page
+//@ ghost mapLogFrame map[uintptr]mm.Frame
+//@ ghost mapLogFlags map[uintptr]PageTableEntryFlag
+
+//@ spec pageOf(a uintptr) mm.Page = mm.Page((a &^ 4095) >> 12)
+//@ pred wfReserve() = earlyReserveLastUsed <= tempMappingAddr && earlyReserveLastUsed&0xfff == 0
+
+//@ func EarlyReserveRegion(size uintptr) (addr uintptr, err *kernel.Error)
+//@   property C07
+//@   requires wfReserve()
+//@   modifies earlyReserveLastUsed
+//@   ensures wf:      wfReserve()
+//@   ensures aligned: err == nil ==> addr&0xfff == 0
+//@   ensures below:   err == nil ==> addr <= old(earlyReserveLastUsed) && earlyReserveLastUsed == addr
+//@   ensures atleast: err == nil ==> old(earlyReserveLastUsed) - addr >= size
+//@   ensures tight:   err == nil ==> old(earlyReserveLastUsed) - addr - size < 4096
+//@   ensures fail:    err != nil ==> err == errEarlyReserveNoSpace && earlyReserveLastUsed == old(earlyReserveLastUsed)
+//@   ensures nofit:   size > old(earlyReserveLastUsed) ==> err != nil
+//@   ensures fit:     size <= old(earlyReserveLastUsed) ==> err == nil
+
+// Map, as seen by its region-level callers: one more entry in the call log;
+// it may fail. (Its effect on the page tables is the subject of C04.)
+//@ func Map(page mm.Page, frame mm.Frame, flags PageTableEntryFlag) (err *kernel.Error)
+//@   trusted
+//@   modifies mapCalls, mapLogPage, mapLogFrame, mapLogFlags, mem
+//@   ensures mapCalls == old(mapCalls) + 1
+//@   ensures mapLogPage == upd(old(mapLogPage), old(mapCalls), page)
+//@   ensures mapLogFrame == upd(old(mapLogFrame), old(mapCalls), frame)
+//@   ensures mapLogFlags == upd(old(mapLogFlags), old(mapCalls), flags)
+
+//@ func MapRegion(frame mm.Frame, size uintptr, flags PageTableEntryFlag) (page mm.Page, err *kernel.Error)
+//@   property C07
+//@   requires wfReserve()
+//@   requires mapCalls < 0x10000000000000
+//@   modifies earlyReserveLastUsed, mapCalls, mapLogPage, mapLogFrame, mapLogFlags, mem
+//@   ensures wf: wfReserve()
+//@   ensures count: err == nil ==> (mapCalls - old(mapCalls))*4096 >= size && (mapCalls - old(mapCalls))*4096 - size < 4096
+//@   ensures region: err == nil ==> uintptr(page) << 12 == earlyReserveLastUsed && old(earlyReserveLastUsed) - earlyReserveLastUsed == (mapCalls - old(mapCalls))*4096
+//@   ensures calls: err == nil ==> forall(k, uintptr, k < mapCalls - old(mapCalls) ==> mapLogPage[old(mapCalls)+k] == page + mm.Page(k) && mapLogFrame[old(mapCalls)+k] == frame + mm.Frame(k) && mapLogFlags[old(mapCalls)+k] == flags)
+//@   ensures older: forall(k, uintptr, k < old(mapCalls) ==> mapLogPage[k] == old(mapLogPage)[k] && mapLogFrame[k] == old(mapLogFrame)[k])
+//@   loop 1 (pageCount > 0) invariant pageCount <= size >> 12
+//@   loop 1 invariant n: mapCalls == old(mapCalls) + ((size >> 12) - pageCount)
+//@   loop 1 invariant cur: page == pageOf(startPage) + mm.Page((size >> 12) - pageCount) && frame == old(frame) + mm.Frame((size >> 12) - pageCount)
+//@   loop 1 invariant log: forall(k, uintptr, k < mapCalls - old(mapCalls) ==> mapLogPage[old(mapCalls)+k] == pageOf(startPage) + mm.Page(k) && mapLogFrame[old(mapCalls)+k] == old(frame) + mm.Frame(k) && mapLogFlags[old(mapCalls)+k] == flags)
+//@   loop 1 invariant older: forall(k, uintptr, k < old(mapCalls) ==> mapLogPage[k] == old(mapLogPage)[k] && mapLogFrame[k] == old(mapLogFrame)[k])
+//@   loop 1 invariant earlyReserveLastUsed == startPage
+//@   loop 1 decreases pageCount
+
+//@ func IdentityMapRegion(startFrame mm.Frame, size uintptr, flags PageTableEntryFlag) (page mm.Page, err *kernel.Error)
+//@   property C07
+//@   requires mapCalls < 0x10000000000000
+//@   requires nowrap: size <= 0xfffffffffffff000 && uintptr(startFrame) <= 0xfffffffffffff && uintptr(startFrame) + ((size + 4095) >> 12) >= uintptr(startFrame)
+//@   modifies mapCalls, mapLogPage, mapLogFrame, mapLogFlags, mem
+//@   ensures count: err == nil ==> (mapCalls - old(mapCalls))*4096 >= size && (mapCalls - old(mapCalls))*4096 - size < 4096
+//@   ensures start: err == nil ==> page == mm.Page(startFrame)
+//@   ensures calls: err == nil ==> forall(k, uintptr, k < mapCalls - old(mapCalls) ==> mapLogPage[old(mapCalls)+k] == mm.Page(startFrame) + mm.Page(k) && mapLogFrame[old(mapCalls)+k] == startFrame + mm.Frame(k) && mapLogFlags[old(mapCalls)+k] == flags)
+//@   ensures older: forall(k, uintptr, k < old(mapCalls) ==> mapLogPage[k] == old(mapLogPage)[k] && mapLogFrame[k] == old(mapLogFrame)[k])
+//@   loop 1 (curPage < startPage+pageCount) invariant curPage >= startPage && curPage <= startPage+pageCount
+//@   loop 1 invariant n: mapCalls == old(mapCalls) + uintptr(curPage - startPage)
+//@   loop 1 invariant log: forall(k, uintptr, k < mapCalls - old(mapCalls) ==> mapLogPage[old(mapCalls)+k] == startPage + mm.Page(k) && mapLogFrame[old(mapCalls)+k] == startFrame + mm.Frame(k) && mapLogFlags[old(mapCalls)+k] == flags)
+//@   loop 1 invariant older: forall(k, uintptr, k < old(mapCalls) ==> mapLogPage[k] == old(mapLogPage)[k] && mapLogFrame[k] == old(mapLogFrame)[k])
+//@   loop 1 decreases startPage + pageCount - curPage
